@@ -25,7 +25,7 @@ ASSUMPTIONS = ['ids, durations and timestamps are excluded from the comparison w
 
 KINDS = ['success', 'raises', 'interrupt', 'interrupt_in_body', 'discarded', 'sampled_out', 'forced', 'handler_fault', 'key_fault', 'save_fails', 'kill_switch',
          'replay_ok', 'replay_missing_id', 'replay_missing_key', 'replay_fn_raises', 'replay_fn_interrupted', 'replay_imported',
-         'raises_unencodable', 'extractor_raises', 'extractor_interrupted', 'noop_discard', 'double_discard', 'equal_hash_args', 'forced_discarded', 'nested_play_discards_outer', 'replay_outputs_post_processed', 'context_kept_by_an_input']
+         'raises_unencodable', 'extractor_raises', 'extractor_interrupted', 'rate0_discarded', 'generator_kept', 'noop_discard', 'double_discard', 'equal_hash_args', 'forced_discarded', 'nested_play_discards_outer', 'replay_outputs_post_processed', 'context_kept_by_an_input']
 
 
 def hist_program(seed):
@@ -143,6 +143,27 @@ def do_element(ctx, sess, kind, seed, w):
                          extractor='raises' if kind == 'extractor_raises' else 'interrupts')
         sess.builts[ek] = res.live
         return
+    if kind == 'rate0_discarded':
+        # an operation of a class with sampling rate 0 discards its recording explicitly
+        ek = (seed, 0)
+        res = fr.execute(prog, {('main', 2): 'discard'}, recorder=rec, spy=sess.spy, box=sess.box, with_twin=False, built=sess.builts.get(ek), rate=0)
+        sess.builts[ek] = res.live
+        return
+    if kind == 'generator_kept':
+        # an intercepted input hands out a generator (a cursor); the operation takes two rows and the service keeps the cursor for later
+        from vlib import genclasses
+
+        class Cursor(object):
+            rows = rec.intercept_input('cursor.rows')(lambda self: (('row', i) for i in range(6)))
+
+            def execute(self):
+                g = self.rows()
+                first = [next(g), next(g)]
+                sess.kept_generator = g
+                return first
+        Cursor.execute = rec.operation()(Cursor.execute)
+        genclasses.register(type('Cursor%d' % (seed % 1000), (Cursor,), {}))().execute()
+        return
     if kind == 'noop_discard':
         # a discard with nothing to discard: outside any operation (cleanup code, a signal handler, a request that was not recorded)
         rec.discard_recording()
@@ -227,9 +248,26 @@ def do_element(ctx, sess, kind, seed, w):
         ctx.count('history_elements_ending_in_exception')
 
 
-def probe(ctx, rec, spy, box, which, seed, replay_source=None, builts=None):
-    """Returns a comparable summary of the probe run."""
+def probe(ctx, rec, spy, box, which, seed, replay_source=None, builts=None, during=None):
+    """Returns a comparable summary of the probe run. ``during`` runs as a plain step inside the probe's operation (the service finishing
+    off something it kept from an earlier run)."""
     prog = hist_program(seed)
+    if which == 'record':
+        prog = dict(prog, body=prog['body'][:2] + [{'op': 'py', 'fn': (lambda built: (during or (lambda: None))())}] + prog['body'][2:])
+    if which == 'explicit_scope':
+        # a recording scope opened directly (public context manager) for a class with default parameters
+        from playback.tape_recorder import TapeRecorder as _TR
+        from vlib import genclasses
+        cls = genclasses.register(type('ProbeScope%d' % (seed % 1000), (object,), {}))
+        n0 = len(spy.log)
+        try:
+            with rec.start_recording('ProbeScope', {_TR.OPERATION_CLASS: cls}):
+                rec.record_data('probe', ['scope', seed % 7])
+            out = 'completed'
+        except BaseException as ex:  # noqa
+            out = 'raised ' + type(ex).__name__
+        ev = [e[0] for e in spy.log[n0:] if e[0] in ('create', 'save', 'abort')]
+        return ('scope', ev, out)
     if which == 'record_rate0':
         # an invocation of a class with sampling rate 0 that forces nothing: must be sampled out whatever earlier invocations did
         b = (builts or {}).get((seed, 0))
@@ -270,13 +308,15 @@ def run_history(ctx, kinds, which, kind_cassette, seed):
             ctx.count('element_' + k)
             idle_check(ctx, sess.rec, w, k)
         pseed = seed if which == 'record_rate0' else seed + 500
+        kept_gen = getattr(sess, 'kept_generator', None)
+        finish_kept = (lambda: [x for x in kept_gen]) if kept_gen is not None else None     # the service drains the cursor it kept, inside the probe's operation
         kept = getattr(sess, 'kept_context', None)
         if kept is not None:
             # the follow-up request runs in the execution context an intercepted function of an earlier operation kept
             ctx.count('probes_in_a_kept_context')
-            got = kept.run(lambda: probe(ctx, sess.rec, sess.spy, sess.box, which, pseed, src, builts=sess.builts))
+            got = kept.run(lambda: probe(ctx, sess.rec, sess.spy, sess.box, which, pseed, src, builts=sess.builts, during=finish_kept))
         elif seed % 2 == 0:
-            got = probe(ctx, sess.rec, sess.spy, sess.box, which, pseed, src, builts=sess.builts)
+            got = probe(ctx, sess.rec, sess.spy, sess.box, which, pseed, src, builts=sess.builts, during=finish_kept)
         else:
             # the next request is served by another thread of the process than the history was
             import threading
@@ -284,7 +324,7 @@ def run_history(ctx, kinds, which, kind_cassette, seed):
 
             def _probe():
                 try:
-                    boxed['got'] = probe(ctx, sess.rec, sess.spy, sess.box, which, pseed, src, builts=sess.builts)
+                    boxed['got'] = probe(ctx, sess.rec, sess.spy, sess.box, which, pseed, src, builts=sess.builts, during=finish_kept)
                 except BaseException as ex:  # noqa
                     boxed['err'] = ex
             t = threading.Thread(target=_probe, daemon=True)
@@ -394,6 +434,12 @@ def run(ctx):
             idx += 1
             if ctx.mine(idx):
                 run_history(ctx, hist, which, ('memory', 'file', 's3')[idx % 3], 4000 + hi)
+    # recording scopes opened directly, after histories that end in discards of classes with parameters of their own
+    for hi, hist in enumerate([['rate0_discarded'], ['discarded'], ['rate0_discarded', 'rate0_discarded'], ['sampled_out'], ['forced_discarded'], ['success', 'rate0_discarded'],
+                               ['rate0_discarded', 'replay_ok'], ['generator_kept'], ['handler_fault', 'rate0_discarded']]):
+        idx += 1
+        if ctx.mine(idx):
+            run_history(ctx, hist, 'explicit_scope', ('memory', 'file', 's3')[idx % 3], 5000 + hi)
     n = ctx.budget(300, 20000)
     rng = ctx.rng
     for i in range(n):
